@@ -564,3 +564,117 @@ def check_C16(sc, v, tier, seed, replay):
               "n in {1, 2, 10, 300 | 9999, 10000}; set-level invariants judged by UePop.tla; distinct = distinct SUPI")
     v.assumptions = ["a population larger than the MSIN digits can accommodate is outside the claim"]
     _reject_to_violation(v, rejects, lambda r, e: "Population:%s" % r["why"][:60])
+
+
+# ------------------------------------------------------------------------------------------------
+# C12  extraction of UE address / TEID / UPF address
+# ------------------------------------------------------------------------------------------------
+def _run_with_restarts(sc, cmd, args, outp, limit=400):
+    """run a watchdog-protected replayer; it exits 3 after recording a hang and is restarted behind that case"""
+    start, n = 0, 0
+    while True:
+        r = sc.run(cmd, list(args) + ["-out", outp, "-from", start], check=False, timeout=3600)
+        if r.returncode == 0:
+            return
+        if r.returncode != 3:
+            raise HarnessError("%s failed (%d): %s" % (cmd, r.returncode, (r.stdout + r.stderr)[-2000:]))
+        start = len(open(outp).read().splitlines())
+        n += 1
+        if n >= 25:
+            vlib.log("note: %s recorded %d hangs; the rest of its sweep is skipped" % (cmd, n))
+            return
+
+
+def check_C12(sc, v, tier, seed, replay):
+    import concurrent.futures as cf
+    import random
+    import re
+    import shutil
+    rnd = random.Random(seed * 1021 + 12)
+    sc.build(["rec-extract", "rec-build"])
+    schema = os.path.join(sc.work, "schema.json")
+    sc.run("rec-build", ["-tier", "quick", "-out", os.path.join(sc.work, "b.ndjson"), "-schema", schema])
+    # (1) termination model: the walk as the code performs it; a counterexample is a lead
+    leads = []
+    for policy in ("asCoded", "stopOnUnknown"):
+        d = sc.specdir()
+        cfg = ("CONSTANTS MaxLen = 4 Policy = \"%s\"\nSPECIFICATION Spec\nPROPERTY Terminates\nPROPERTY Progress\nINVARIANT Bounded\nCHECK_DEADLOCK FALSE\n" % policy)
+        r = vlib.run_tlc(d, "PduExtract", cfg, name="MCExtract-" + policy, timeout=900, workers=vlib.NCPU, heap="8g")
+        v.add_tlc([r])
+        if policy == "stopOnUnknown" and not r.ok:
+            raise HarnessError("PduExtract with the terminating policy violates its own properties: " + r.error)
+        if policy == "asCoded" and not r.ok:
+            m = re.findall(r"input = <<([0-9, ]*)>>", r.out)
+            for s in m[-1:]:
+                leads.append([int(x) for x in s.split(",") if x.strip()])
+        shutil.rmtree(d, ignore_errors=True)
+    v.extra["model_leads"] = leads
+    leadp = os.path.join(sc.work, "leads.json")
+    json.dump(leads, open(leadp, "w"))
+    # (2) exactness on spec-generated well-formed inputs
+    n = 160 if tier == "quick" else 4000
+    opt_ieis = [89, 86, 34, 128, 117, 120, 121, 123, 37]
+    skel = []
+    for i in range(n):
+        ies = [x for x in opt_ieis if rnd.random() < (0.5 if i % 3 else (0.0 if i % 6 == 0 else 1.0))]
+        big = lambda x: online_num(x)
+        skel.append({"id": i, "psi": rnd.randrange(1, 16), "pti": rnd.randrange(1, 255), "hdr": rnd.choice([2, 4]), "dlCount": rnd.randrange(1 << 24),
+                     "ies": ies, "ip": [rnd.choice([0, 10, 255, rnd.randrange(256)]) for _ in range(4)],
+                     "teid": rnd.choice([[0, 0, 0, 0], [0, 0, 0, 1], [128, 0, 0, 0], [255, 255, 255, 255], [rnd.randrange(256) for _ in range(4)]]),
+                     "upf": [rnd.randrange(256) for _ in range(4)],
+                     "qosRules": [rnd.randrange(256) for _ in range(rnd.choice([0, 1, 255, 256, 4000] if i % 8 == 0 else [0, 1, 9, 31, 127, 128]))],
+                     "qosFlows": [rnd.randrange(256) for _ in range(rnd.choice([3, 6, 60, 300]))],
+                     "withAmbr": rnd.random() < 0.6,
+                     "ambrDl": big(rnd.choice([0, 1, 255, 256, 65535, 65536, 1 << 32, 4000000000000, rnd.randrange(4000000000001)])),
+                     "ambrUl": big(rnd.choice([0, 1, 1 << 16, 1 << 24, 1 << 40, 4000000000000]))})
+    scnp = os.path.join(sc.work, "scn.json")
+    json.dump({"cfg": {"sst": rnd.choice([1, 2, 255]), "sd": rnd.choice([[], [1, 2, 3]]), "k": [0] * 16, "op": [0] * 16, "opc": [0] * 16,
+                       "mcc": [48, 48, 49], "mnc": [48, 49], "imsi": [48] * 10, "gnbId": [0, 0, 0], "gnbBits": 24, "gnbName": [65],
+                       "gtpIp": [1, 2, 3, 4], "counts": {"reg": 0, "pdu": 0, "svc": 0, "rel": 0, "dereg": 0}},
+               "ues": [], "fault": {"kind": "none", "at": -1, "bytes": []}}, open(scnp, "w"))
+    skp = os.path.join(sc.work, "exskel.ndjson")
+    open(skp, "w").write("\n".join(json.dumps(x) for x in skel) + "\n")
+    chunks, _ = vlib.split_lines(skp, vlib.NCPU, sc.work, "exskel")
+
+    def gen(c):
+        d = sc.specdir()
+        outp = c[0].replace("exskel", "excases")
+        r = vlib.run_tlc(d, "GenExtract", vlib.cfg_text({"TracePath": c[0], "OutPath": outp, "ScenarioPath": scnp, "SchemaPath": schema},
+                                                       post="Consumed"), timeout=1500)
+        shutil.rmtree(d, ignore_errors=True)
+        if not r.ok:
+            raise HarnessError("GenExtract failed: " + r.error)
+        return outp, r
+    with cf.ThreadPoolExecutor(max_workers=vlib.NCPU) as ex:
+        gens = list(ex.map(gen, chunks))
+    v.add_tlc([g[1] for g in gens])
+    obsp = os.path.join(sc.work, "exobs.ndjson")
+    for outp, _ in gens:
+        _run_with_restarts(sc, "rec-extract", ["-replay", outp], obsp)
+    # (3) termination sweep on the real functions
+    _run_with_restarts(sc, "rec-extract", ["-term", "-seed", seed, "-tier", tier, "-leads", leadp], obsp)
+    results, rejects, lines = vlib.validate_trace(sc, "TraceExtract", obsp)
+    v.add_tlc(results)
+    v.traces = len(results)
+    evs = [json.loads(l) for l in lines]
+    v.evaluations = len(evs)
+    for e in evs:
+        v.distinct.add(hash(canon(e.get("nas", e.get("input")))))
+    v.samples = [{"exp": evs[0]["exp"], "obs": evs[0]["obs"], "nas": evs[0]["nas"][:60]}, [e for e in evs if e["ev"] == "Term"][0]]
+    v.rule = ("(G) PDU SESSION ESTABLISHMENT ACCEPTs built by the spec's SMF (random subsets of the optional IEs of table 8.3.2.1.1 in table order, "
+              "QoS rules 0..4000 octets, flow descriptions, S-NSSAI with/without SD, DNN) inside DL NAS TRANSPORT inside a protected message "
+              "(header types 2, 4) and setup request transfers PER-encoded by Per.tla (aggregate bit rates 0..4e12, TEID / address corners) replayed "
+              "through the real extractors; termination: PduExtract.tla model-checked (leads replayed), every octet-class sequence up to length 3|4 "
+              "and random byte strings up to 4 KiB under a 2 s watchdog; distinct = distinct input")
+    v.assumptions = ["the PDU address IE carries an IPv4 address; the UL NG-U tunnel is an IPv4 GTP tunnel (as the property states)"]
+
+    def key(r, e):
+        if e.get("ev") == "Term":
+            return "Term:%s:%s" % (e.get("fn"), e.get("cls"))
+        return "Extract:%s" % r["why"][:40]
+    _reject_to_violation(v, rejects, key)
+
+
+def online_num(i):
+    import online
+    return online.num(i)
